@@ -196,7 +196,7 @@ def _chunk_stream(ctx):
             for c in _cs(rng, y)[:2]:
                 ops += _windows(rng, x, y, z, c, (240, 480) if q else (240, 480, 720), True)
     # (b) medium x: rows and chains covering [0, z]
-    for x in gen.structured_x(rng, 2 * 10 ** 4, 2 * 10 ** 6 if q else 10 ** 8, 60 if q else 600):
+    for x in gen.structured_x(rng, 2 * 10 ** 4, 2 * 10 ** 6 if q else 10 ** 8, 150 if q else 900):
         x13, sq = gen.iroot(3, x), gen.isqrt(x)
         y = rng.choice((x13, sq, rng.randint(x13, sq), min(sq, 2 * x13)))
         z = x // y
@@ -263,6 +263,15 @@ def _runs_stream(ctx):
         c = gen.get_c(y)
         for (t, pr) in ((1, 0), (3, 1), (16, 0)):
             ops.append("toplmopar_run %d %d %d %d %d %d %d 200000" % (x, y, z, c, t, pr, rng.getrandbits(30)))
+    # sieve limits just above 2^21 / 3 * 2^20: LoadBalancerS2 runs a team of 2..3 workers (histories of > 20 events)
+    for k in range(1 if q else 8):
+        zt = rng.choice((2 ** 21, 3 * 2 ** 20)) + rng.randint(1, 2 * 10 ** 5)
+        y = gen.isqrt(zt) + rng.randint(0, 50)          # x = y * z with y ~ sqrt(z): y = x^(1/3)
+        x = y * zt + rng.randint(0, y - 1)
+        if y * y > x or gen.iroot(3, x) > y:
+            continue
+        for (t, pr) in ((2, 0), (5, 1)) if q else ((2, 0), (3, 1), (5, 0), (16, 1)):
+            ops.append("toplmopar_run %d %d %d %d %d %d %d 200000" % (x, y, x // y, gen.get_c(y), t, pr, rng.getrandbits(30)))
 
     def model_ops(ops_, impl):
         out = []
